@@ -33,5 +33,9 @@ def obligations(tier):
     RT = ['{"?":?}', '[?,{"?":"?"}]', ' {"a":[?,null],"?":{}} ', '{"?":1,"?":2}'] if q else ['{"?":?}', '[?,{"?":"?"}]', ' {"a":[?,null],"?":{}} ', '{"?":1,"?":2}', '[[?],?]', '{"a":{"?":[?]}}', '??', '[1e?,"\\u00??"]']
     for i, t in enumerate(RT):
         for target in range(5):
-            L.append(ob("route/t%d/target=%d" % (i, target), ".", "VerifC03Route", [t, target], covers=["accept"], max_seconds=600))
+            kind = t.strip()[0]
+            cov = ["accept"]
+            if (target == 2 and kind != "{") or (target == 3 and kind != "["):
+                cov = []  # a typed map/slice target only accepts texts of its own kind
+            L.append(ob("route/t%d/target=%d" % (i, target), ".", "VerifC03Route", [t, target], covers=cov, max_seconds=600))
     return L
